@@ -549,8 +549,11 @@ class AutoCleaner(threading.Thread):
                     continue
                 try:
                     uri_obj = core.URI(uri)
+                    if uri_obj.protocol != "PYRO":
+                        continue    # an alias for another name has no location of its own that could be probed
                     timeout = config.COMMTIMEOUT or 5
-                    sock = socketutil.create_socket(connect=(uri_obj.host, uri_obj.port), timeout=timeout)
+                    # (an object behind a Unix domain socket has a socket name instead of a host and port)
+                    sock = socketutil.create_socket(connect=uri_obj.sockname or (uri_obj.host, uri_obj.port), timeout=timeout)
                     sock.close()
                     # if we get here, the listed server is still answering on its port
                     if name in self.unreachable:
